@@ -20,8 +20,8 @@ def main():
 
 
 MANIFEST = {
-    "claimed": False,
-    "text": "",
-    "note": "",
+    "claimed": True,
+    "text": "Theorems (Coq, closed; every parsed request of version 3/4/5, every server state, reception time and clock value): every answer handle sends is a builder's answer for the decision taken and starts with its header (C18_answers_are_built, C18_header_first); time answers have exactly the stated header (mode server, request's version and poll, origin = request's transmit timestamp / client cookie, receive = reception time, transmit = clock, server's leap, stratum, precision, root delay/dispersion, reference id, reference timestamp = reception time truncated to 2^7 s or the upgrade marker iff a plain NTPv4 request carried it; NTPv5 flags = synchronized iff stratum < 16) (C18_time_answer); DENY/RATE/NTS-NAK answers have stratum 0, no server timestamps, the kiss code resp. poll 127 / poll+1 / authnak (C18_kiss); the extension fields of any answer are only unique identifiers of the request's untrusted/authenticated lists (NTS: authenticated only), reference-id responses cut from the server's filter for the request's reference-id requests, the draft id, and fresh cookies in the encrypted part of NTS time answers (C18_fields_subset); nothing of the encrypted part influences any other answer (C18_ignores_encrypted); an undecryptable request gets at most a NAK or DENY (C18_nothing_undecryptable).",
+    "note": "'No other request content is reflected' is structural in the model (payloads of other fields, the other header fields, MAC and ciphertexts are not model inputs) and is established for the code by the byte-for-byte comparison of the clear part of every answer plus the monitor's marker search; root delay/dispersion encodings, precision.log2() and the Bloom filter bytes are oracle inputs computed by the same Rust functions; the random NTPv5 server cookie is masked. Trusted: as C16. Print Assumptions: closed under the global context.",
     "design_ref": "DESIGN.md 3 C18",
 }
